@@ -1,8 +1,10 @@
 (* C14 driver for the extracted model.  One case per line (see harness/c14_rns.C for the result format):
-     int <cksrc> <ttck> <ctor> <order> <hist> n p1..pn r1..rn na a1..a_na k o1..ok
-          (cksrc/ttck: facts read from the source; ctor: element type of the constructor argument, Integer = plain constructor;
-           order: the entry point called first; o = the unrelated system used to warm caches)
-     rns <order> <hist> n p1..pn r1..rn na a1..a_na k o1..ok
+     int <cksrc> <ttck> <members operator= assigns> <first digit reduced 0|1> <ctor> <order> <hist> n p1..pn r1..rn na a1..a_na k o1..ok
+          (the first four: facts read from the source; ctor: element type of the constructor argument, Integer = plain constructor;
+           order: the entry point called first; o = the unrelated system used as assignment target / to warm caches)
+     rns <members copied> <members assigned> <statements of setPrimes> <order> <hist> n p1..pn r1..rn na a1..a_na k o1..ok
+     rnsexc <3 facts> n p1..pn m d1..dm                        (MixedRadixToRing: no primes / wrong number of digits -> EXCEPTION)
+     fixed <members copied> <members assigned> <left leaf reduced 0|1> <3 RNSsystem facts> <hist> n p1..pn r1..rn k o1..ok
      bal <order> n p1..pn r1..rn na a1..a_na                  (balanced residue domains; the answers do not depend on the history)
      fixed n p1..pn r1..rn
      cra <reduce|noreduce|fixed> M D A e
@@ -14,17 +16,31 @@ let grp l = if l = [] then "" else sl l ^ " "
 let rec take n l = if n <= 0 then [] else match l with [] -> failwith "short line" | x :: t -> x :: take (n - 1) t
 let rec drop n l = if n <= 0 then l else match l with [] -> failwith "short line" | _ :: t -> drop (n - 1) t
 let hist_of = function
-  | "fresh" | "freshtt" -> Model.Hfresh | "reuse" -> Model.Hreuse | "copycold" -> Model.Hcopycold
-  | "copywarm" | "copymod" -> Model.Hcopywarm | "copy2" -> Model.Hcopy2 | "assigncold" -> Model.Hassigncold
-  | "assignwarm" | "assignsame" | "assigncc" -> Model.Hassignwarm | "setcold" | "dfltcopyset" -> Model.Hsetcold
-  | "setwarm" | "setsame" | "setback" -> Model.Hsetwarm
+  | "fresh" -> Model.Hfresh | "reuse" -> Model.Hreuse | "copycold" -> Model.Hcopycold | "copywarm" -> Model.Hcopywarm
+  | "copy2" -> Model.Hcopy2 | "copymod" -> Model.Hcopymod | "assigncold" -> Model.Hassigncold | "assignwarm" -> Model.Hassignwarm
+  | "assignsame" -> Model.Hassignsame | "assigncc" -> Model.Hassigncc | "setcold" -> Model.Hsetcold | "setwarm" -> Model.Hsetwarm
+  | "setsame" -> Model.Hsetsame | "setback" -> Model.Hsetback | "dfltcopyset" -> Model.Hdfltcopyset
   | s -> failwith ("hist " ^ s)
+let fhist_of = function
+  | "fresh" -> Model.FHfresh | "reuse" -> Model.FHreuse | "assigncold" -> Model.FHassigncold | "assignwarm" | "assignsame" -> Model.FHassignwarm
+  | "assigncc" -> Model.FHassigncc | "copycold" -> Model.FHcopycold | "copywarm" -> Model.FHcopywarm | "copy2" -> Model.FHcopy2
+  | "copyassign" -> Model.FHcopyassign | s -> failwith ("fhist " ^ s)
 let src_of = function
   | "primes" -> Model.FromPrimes | "ck" -> Model.FromCk | "nothing" -> Model.FromNothing | s -> failwith ("cksrc " ^ s)
 let ckinit_of = function "empty" -> Model.CkEmpty | "sized" -> Model.CkSized | s -> failwith ("ckinit " ^ s)
 let order_of = function
   | "mix" -> Model.Fmix | "ring" -> Model.Fring | "recip" -> Model.Frecip | "recipi" -> Model.Frecipi
   | "prod" -> Model.Fprod | "rns" -> Model.Frns | s -> failwith ("order " ^ s)
+(* facts read from the source, as comma-separated member / statement names ("-" = none) *)
+let names s = if s = "-" then [] else String.split_on_char ',' s
+let imembers s = List.map (function "primes" -> Model.IMprimes | "prod" -> Model.IMprod | "ck" -> Model.IMck | x -> failwith ("imember " ^ x)) (names s)
+let dmembers s = List.map (function "primes" -> Model.DMprimes | "ck" -> Model.DMck | x -> failwith ("dmember " ^ x)) (names s)
+let fmembers s = List.map (function "tree" -> Model.FMtree | "rns" -> Model.FMrns | x -> failwith ("fmember " ^ x)) (names s)
+let setprog s = List.map (function "alloc" -> Model.SAllocPrimes0 | "copy" -> Model.SCopyPrimes | "resize" -> Model.SResizeCk0
+                                 | "compute" -> Model.SComputeCk | x -> failwith ("set_stmt " ^ x)) (names s)
+let flag s = (s = "1")
+let dsrc_of c a p = { Model.ds_copy = dmembers c; Model.ds_assign = dmembers a; Model.ds_set = setprog p }
+let ostr = function Some v -> string_of_z v | None -> "UNDEFINED"
 let strip_trailing_zeros l =
   let rec go = function [] -> [] | x :: t -> if x = Model.Z0 then go t else x :: t in
   List.rev (go (List.rev l))
@@ -38,7 +54,7 @@ let parse_sys rest =
   | _ -> failwith "short line"
 let () = run_lines (fun toks ->
   match toks with
-  | "int" :: src :: ttck :: ctor :: order :: h :: rest ->
+  | "int" :: src :: ttck :: asg :: head :: ctor :: order :: h :: rest ->
     let (p, r, rest) = parse_sys rest in
     (match rest with
      | nas :: rest ->
@@ -47,15 +63,18 @@ let () = run_lines (fun toks ->
        let rest = drop na rest in
        let ks = List.hd rest and os = List.tl rest in
        let o = List.map zs (take (int_of_string ks) os) in
+       let f = { Model.is_copy = src_of src; Model.is_tt = ckinit_of ttck; Model.is_assign = imembers asg; Model.is_head = flag head } in
        let mk = if ctor = "Integer" then Model.int_mk else Model.int_mk_tt (ckinit_of ttck) in
-       let (((((((mix, v), pr), rrs), ck), v2), p2), first) = Model.int_run (src_of src) mk (order_of order) (hist_of h) p o r al in
-       let rr = List.concat (List.map fst rrs) and back = List.map snd rrs in
-       let rr0 = (match List.rev rrs with [] -> [] | (x, _) :: _ -> x) in
-       grp mix ^ "| " ^ string_of_z v ^ " | " ^ string_of_z pr ^ " | " ^ grp rr ^ "| " ^ grp back ^ "| " ^ grp ck ^ "| " ^ string_of_z v2
-       ^ " | " ^ string_of_int (List.length p) ^ " " ^ grp p ^ "| " ^ grp p ^ "| " ^ grp ck ^ "| " ^ string_of_z v
-       ^ " | " ^ string_of_z p2 ^ " | " ^ grp rr0 ^ "| " ^ grp first
+       (match Model.int_run f mk (order_of order) (hist_of h) p o r al with
+        | None -> "UNDEFINED"
+        | Some ((((((((((mix, v), pr), rrs), ck), v2), pacc), ck2), v3), p2), first) ->
+          let rr = List.concat (List.map fst rrs) and back = List.map snd rrs in
+          let rr0 = (match List.rev rrs with [] -> [] | (x, _) :: _ -> x) in
+          grp mix ^ "| " ^ string_of_z v ^ " | " ^ string_of_z pr ^ " | " ^ grp rr ^ "| " ^ grp back ^ "| " ^ grp ck ^ "| " ^ string_of_z v2
+          ^ " | " ^ string_of_int (List.length pacc) ^ " " ^ grp pacc ^ "| " ^ grp pacc ^ "| " ^ grp ck2 ^ "| " ^ string_of_z v3
+          ^ " | " ^ string_of_z p2 ^ " | " ^ grp rr0 ^ "| " ^ grp first)
   | _ -> "BAD-LINE")
-  | "rns" :: order :: h :: rest ->
+  | "rns" :: cp :: asg :: prog :: order :: h :: rest ->
     let (p, r, rest) = parse_sys rest in
     (match rest with
      | nas :: rest ->
@@ -64,13 +83,26 @@ let () = run_lines (fun toks ->
        let rest = drop na rest in
        let ks = List.hd rest and os = List.tl rest in
        let o = List.map zs (take (int_of_string ks) os) in
-       let (((((mix, v), rrs), ck), v2), first) = Model.dom_run (order_of order) (hist_of h) p o r al in
-       let rr = List.concat (List.map fst rrs) and back = List.map snd rrs in
-       let rr0 = (match List.rev rrs with [] -> [] | (x, _) :: _ -> x) in
-       grp mix ^ "| " ^ string_of_z v ^ " | " ^ grp rr ^ "| " ^ grp back ^ "| " ^ grp ck ^ "| " ^ string_of_z v2
-       ^ " | " ^ string_of_int (List.length p) ^ " " ^ grp p ^ "| " ^ grp p ^ "| " ^ grp ck ^ "| " ^ string_of_z v
-       ^ " | " ^ grp mix ^ "| " ^ grp mix ^ "| " ^ grp rr0 ^ "| " ^ grp first
+       (match Model.dom_run (dsrc_of cp asg prog) (order_of order) (hist_of h) p o r al with
+        | None -> "UNDEFINED"
+        | Some ((((((((((mix, v), rrs), ck), v2), pacc), ck2), v3), mixe), mixo), first) ->
+          let rr = List.concat (List.map fst rrs) and back = List.map snd rrs in
+          let rr0 = (match List.rev rrs with [] -> [] | (x, _) :: _ -> x) in
+          grp mix ^ "| " ^ string_of_z v ^ " | " ^ grp rr ^ "| " ^ grp back ^ "| " ^ grp ck ^ "| " ^ string_of_z v2
+          ^ " | " ^ string_of_int (List.length pacc) ^ " " ^ grp pacc ^ "| " ^ grp pacc ^ "| " ^ grp ck2 ^ "| " ^ string_of_z v3
+          ^ " | " ^ grp mixe ^ "| " ^ grp mixo ^ "| " ^ grp rr0 ^ "| " ^ grp first)
   | _ -> "BAD-LINE")
+  | "rnsexc" :: cp :: asg :: prog :: rest ->
+    (* RNSsystem::MixedRadixToRing on a system with the primes p (possibly none) and a digit array of any size *)
+    (match rest with
+     | ns :: rest ->
+       let n = int_of_string ns in
+       let p = List.map zs (take n rest) in
+       let rest = drop n rest in
+       let m = int_of_string (List.hd rest) in
+       let mix = List.map zs (take m (List.tl rest)) in
+       (match Model.dom_exc_run (dsrc_of cp asg prog) p mix with Some v -> string_of_z v | None -> "EXCEPTION")
+     | _ -> "BAD-LINE")
   | "bal" :: order :: rest ->
     let (p, r, rest) = parse_sys rest in
     (match rest with
@@ -87,11 +119,13 @@ let () = run_lines (fun toks ->
        ^ " | " ^ string_of_int (List.length p) ^ " " ^ grp p ^ "| " ^ grp p ^ "| " ^ grp ck ^ "| " ^ string_of_z v
        ^ " | " ^ grp mix ^ "| " ^ grp mix ^ "| " ^ grp rr0 ^ "| " ^ grp first
      | _ -> "BAD-LINE")
-  | "fixed" :: rest ->
-    let (p, r, _) = parse_sys rest in
-    let v = string_of_z (Model.fixed_RnsToRing p r) in
-    let t = Model.fixed_tree p in
-    v ^ " " ^ v ^ " | " ^ string_of_int (List.length t) ^ " "
+  | "fixed" :: fcp :: fasg :: leaf :: cp :: asg :: prog :: h :: rest ->
+    let (p, r, rest) = parse_sys rest in
+    let ks = List.hd rest and os = List.tl rest in
+    let o = List.map zs (take (int_of_string ks) os) in
+    let fs = { Model.fs_copy = fmembers fcp; Model.fs_assign = fmembers fasg; Model.fs_leaf = flag leaf; Model.fs_dom = dsrc_of cp asg prog } in
+    let ((v, v2), t) = Model.fix_run fs (fhist_of h) p o r in
+    ostr v ^ " " ^ ostr v2 ^ " | " ^ string_of_int (List.length t) ^ " "
     ^ String.concat "" (List.map (fun lv -> string_of_int (List.length lv) ^ " " ^ grp lv) t)
   | ["cra"; variant; m; d; a; e] ->
     let f = (match variant with
@@ -102,7 +136,7 @@ let () = run_lines (fun toks ->
     let (p, r, _) = parse_sys rest in
     let f = (match variant with "reduce" -> Model.cra_reduce | "fixed" -> Model.cra_reduce_fixed | s -> failwith ("variant " ^ s)) in
     let rc = List.map2 (fun x q -> Model.Z.modulo x q) r p in
-    grp (Model.lift_run f p r) ^ "| " ^ string_of_z (snd (Model.dom_RnsToRing (Model.dom_mk p) rc))
+    grp (Model.lift_run f p r) ^ "| " ^ ostr (snd (Model.dom_RnsToRing (Model.dom_mk p) rc))
   | "poly" :: ps :: rest ->
     let p = zs ps in
     let (pts, r, rest) = parse_sys rest in
